@@ -37,4 +37,9 @@ TEXT = {
         "level_text": "Generated histories of valid and invalid repo-level requests; after each one the complete metadata snapshot (repos/info, DAG links, locked flags, notes, logs, branch heads, uuid<->version maps via a read-only shim) is checked for well-formedness, compared with the previous snapshot when the request was refused, and checked for exactly one new node with the requested parents when a DAG-growing request was accepted.",
         "level_note": "<=40 requests, <=3 repos per history; status codes used only as 2xx vs not; instance/repo deletion reached through the real RPC switchboard (shim).",
     },
+    "C08": {
+        "technique": "property-based testing (rapid): model-based state machine (dense voxel->supervoxel volume + supervoxel->body mapping per version) with three oracles: model equality, internal consistency of every read endpoint vs scan+mapping, version isolation",
+        "level_text": "Generated proofreading histories on a small labelmap (12 blocks of 16^3, also at negative block coordinates): after every mutation the server's stored voxels and mapping must equal the reference model, every read endpoint must equal what scanning the server's own stored voxels under its own mapping yields, and every other version must still read as its own history says (no pre-reads, so versions are first loaded in arbitrary order). Exploration of op sequences x label layouts x DAG shapes the example tests cannot reach.",
+        "level_note": "<=19 ops, <=10 palette supervoxels, one block size (16^3), extent 3x2x2 blocks; split volumes are proper subsets; 'split' (body split) endpoint not exercised (disabled by default configuration); maxlabel/nextlabel belong to C12.",
+    },
 }
